@@ -184,7 +184,8 @@ static double nv_param_L0(void) { return nv_nondet_double(); }
 #define NV_LS_MAX 100
 #endif
 static int64_t nv_param_lsearch_max_iters(void) { int64_t p = nv_nondet_int64_t(); __CPROVER_assume(10 <= p && p <= NV_LS_MAX); return p; }
-#define NV_TRIPLE(x, g, f) ((x).id != 0 && NV_SAME(f, (x).fval) && (g).grad_of == (x).id)
+/* (x, g, f) is one evaluation: f is the value at x, g the (sub-)gradient at x (and x obeys the model's non-finite-point assumption) */
+#define NV_TRIPLE(x, g, f) ((x).id != 0 && ((x).fin || !NV_ISFIN((x).fval)) && NV_SAME(f, (x).fval) && (g).grad_of == (x).id)
 #define NV_INNER_COUNT(k, FPER, GPER) \
   (nv_ver_counter >= __CPROVER_loop_entry(nv_ver_counter) + (uint64_t)(k) && nv_ver_counter <= __CPROVER_loop_entry(nv_ver_counter) + (FPER) * (uint64_t)(k) \
    && nv_gcount >= __CPROVER_loop_entry(nv_gcount) + (uint64_t)(k) && nv_gcount <= __CPROVER_loop_entry(nv_gcount) + (GPER) * (uint64_t)(k) && nv_gcount <= nv_ver_counter)
